@@ -357,7 +357,7 @@ where
     let x34f = get("x3x4_f_eval")?;
     let v = get("v")?;
     let ans = format!(
-        "ie={} lag={} n={} ids={} xn={} h={} qes={} fe={} v={} lhs={} rhs={} off=1",
+        "ie={} lag={} n={} ids={} xn={} h={} qes={} fe={} v={} lhs={} rhs={} off=1 offv=1 inj=1 wf=1",
         hexes(ie),
         hexes(lag),
         ids.len(),
